@@ -371,7 +371,9 @@ class LTChar(LTComponent, LTText):
         self.fontname = font.fontname
         self.ncs = ncs
         self.graphicstate = graphicstate
-        self.adv = textwidth * fontsize * scaling
+        # Horizontal scaling stretches the horizontal advance only; in vertical
+        # writing mode the advance runs along y.
+        self.adv = textwidth * fontsize * (1 if font.is_vertical() else scaling)
         # compute the boundary rectangle.
         if font.is_vertical():
             # vertical
